@@ -406,6 +406,19 @@ fn main() {
     let model_path = opts.model.clone().expect("--model <qm_c02>");
     let mut ck = Checker { model: Model::spawn(&model_path), imp: ImplRunner::new() };
 
+    // developer aid: `c02 --model <qm_c02> --probe '<source>'` compares one program
+    if let Some(i) = opts.extra.iter().position(|x| x == "--probe") {
+        let src = opts.extra.get(i + 1).cloned().unwrap_or_default();
+        match from_real::convert_source(&src) {
+            Ok(p) => {
+                let (v, m, i) = ck.check(&p);
+                println!("source:         {}\nsexpr:          {}\nimplementation: {i:?}\nreference:      {m}\nverdict:        {v:?}\nvalidate:       {:?}", p.src(), p.sx(), validate::validate(&p));
+            }
+            Err(e) => println!("outside the fragment: {e}\nimplementation: {:?}", ck.imp.run(&src)),
+        }
+        return;
+    }
+
     // replay mode: a replay file written by this binary
     if let Some(rp) = &opts.replay {
         let j: serde_json::Value = serde_json::from_str(&std::fs::read_to_string(rp).expect("replay file")).expect("json");
